@@ -33,7 +33,7 @@ TRUSTED = ['the pixel buffer and the data buffer of one codec call do not overla
            'memoryview strided slice assignment copies element k of the source to index start+k*step']
 UNVERIFIED = ['_cy_vtf_readwrite.pyx (Cython twin: not parseable by ast, not buildable here)',
               'DXT decoders (read-only formats)', 'Pillow / tkinter conversion paths']
-TIMEOUT_MS = {'quick': 20000, 'thorough': 120000}
+TIMEOUT_MS = {'quick': 90000, 'thorough': 240000}
 
 
 # ------------------------------------------------------------------------------------------------ spec helpers
